@@ -231,41 +231,46 @@ def enumOf (r : Report) (name : Name) : Option (List Name) :=
 def toInternal (exts : List Name) : List Name :=
   exts.filterMap fun e => (builtinOps.find? (·.1 == e)).map (·.2)
 
-def docParams (r : Report) : Option Params := do
-  let n := numsOf r
-  let rng (name : Name) : Option (Int × Int) := do pair? (← n name) 0 1
-  let one (name : Name) : Option Int := do intAt (← n name) 0
-  let strides ← n n!"constraint_stride_width_no_upper_limit"
-  let mean ← n n!"constraint_mean_height_width_product"
+/-- Bounds and enumerations as printed in report `r`.  A sentence that the report does not contain
+    contributes a neutral value (empty range, empty set): no bullet of that report can refer to it, and
+    `boundProblems` flags the field when the live objects still carry a value for it. -/
+def docParams (r : Report) : Option Params :=
+  let n (name : Name) : List Nat := (numsOf r name).getD []
+  let rng (name : Name) : Int × Int := (pair? (n name) 0 1).getD (0, 0)
+  let one (name : Name) : Int := (intAt (n name) 0).getD 0
+  let en (name : Name) : List Name := (enumOf r name).getD []
+  let strides := n n!"constraint_stride_width_no_upper_limit"
+  let mean := n n!"constraint_mean_height_width_product"
+  let orElse (a b : Int × Int) : Int × Int := if a == (0, 0) then b else a
   some {
-    tensDim := ← rng n!"constraint_tens_dimension"
-    stride := ← rng n!"constraint_stride_range"
-    dilH := ← rng n!"constraint_dilated_height_range"
-    dilProd := ← rng n!"constraint_dilated_product_range"
-    weightsLimit := ← one n!"constraint_weights_limit"
-    filter := ← rng n!"constraint_filter_range"
-    filterH := ← rng n!"constraint_filter_height_range"
-    filterProd := ← rng n!"constraint_filter_product_range"
-    meanMax := ← one n!"constraint_mean_width"
-    meanInt8 := ← intAt mean 0
-    meanUint8 := ← intAt mean 2
-    meanInt16 := ← intAt mean 4
-    opDtypes := ← enumOf r n!"constraint_tens_dtype"
-    fafDtypes := ← enumOf r n!"constraint_faf_type"
-    biasDtypes := ← enumOf r n!"constraint_bias_type"
-    padDtypes := ← enumOf r n!"constraint_pad_type"
-    int32Ops := toInternal (← enumOf r n!"constraint_tens_int32_ops")
-    perAxisOps := toInternal (← enumOf r n!"constraint_tens_quant_per_axis")
-    fafOps := toInternal (← enumOf r n!"constraint_faf")
-    shapelessOps := toInternal (← enumOf r n!"constraint_tens_input_scalar")
-    dwStride := ← rng n!"constraint_depthwise_conv_stride"
-    convStrideH := ← pair? strides 0 1
-    convStrideW := ← pair? strides 3 4
-    hwStrides := [← intAt strides 6, ← intAt strides 7]
-    avgStrideNoPad := ← intAt (← n n!"constraint_stride_range_no_padding") 1
-    biasBits := ← (← n n!"constraint_bias_40bit")[0]?
-    argmaxDepth := ← one n!"constraint_argmax_depth"
-    maxRank := ← (← n n!"constraint_tens_shape_size")[0]?
+    tensDim := rng n!"constraint_tens_dimension"
+    stride := rng n!"constraint_stride_range"
+    dilH := rng n!"constraint_dilated_height_range"
+    dilProd := rng n!"constraint_dilated_product_range"
+    weightsLimit := one n!"constraint_weights_limit"
+    filter := rng n!"constraint_filter_range"
+    filterH := orElse (rng n!"constraint_filter_height_range") (rng n!"constraint_filter_height_range_valid_pad")
+    filterProd := orElse (rng n!"constraint_filter_product_range") (rng n!"constraint_filter_product_range_valid_pad")
+    meanMax := if one n!"constraint_mean_width" == 0 then one n!"constraint_mean_depth" else one n!"constraint_mean_width"
+    meanInt8 := (intAt mean 0).getD 0
+    meanUint8 := (intAt mean 2).getD 0
+    meanInt16 := (intAt mean 4).getD 0
+    opDtypes := en n!"constraint_tens_dtype"
+    fafDtypes := en n!"constraint_faf_type"
+    biasDtypes := en n!"constraint_bias_type"
+    padDtypes := en n!"constraint_pad_type"
+    int32Ops := toInternal (en n!"constraint_tens_int32_ops")
+    perAxisOps := toInternal (en n!"constraint_tens_quant_per_axis")
+    fafOps := toInternal (en n!"constraint_faf")
+    shapelessOps := toInternal (en n!"constraint_tens_input_scalar")
+    dwStride := rng n!"constraint_depthwise_conv_stride"
+    convStrideH := (pair? strides 0 1).getD (0, 0)
+    convStrideW := (pair? strides 3 4).getD (0, 0)
+    hwStrides := [(intAt strides 6).getD 0, (intAt strides 7).getD 0]
+    avgStrideNoPad := (intAt (n n!"constraint_stride_range_no_padding") 1).getD 0
+    biasBits := ((n n!"constraint_bias_40bit")[0]?).getD 0
+    argmaxDepth := one n!"constraint_argmax_depth"
+    maxRank := ((n n!"constraint_tens_shape_size")[0]?).getD 0
   }
 
 -- ------------------------------------------------------------------------------------------------
